@@ -58,14 +58,14 @@ class TlcResult:
                 buf = t
             else:
                 buf += ' ' + t
-            if buf.count('<<') == buf.count('>>') and buf.count('{') == buf.count('}') and buf.count('[') == buf.count(']'):
-                try:
-                    vals.append(parse_tla_value(buf))
-                except Exception:
-                    pass
+            if not buf.endswith('>>'):
+                continue
+            try:
+                vals.append(parse_tla_value(buf))
                 buf = None
-            elif len(buf) > 2000000:
-                buf = None
+            except Exception:
+                if len(buf) > 4000000:
+                    buf = None
         return vals
 
     def coverage(self):
